@@ -30,3 +30,19 @@ def char_cases(tier):
             for ap in (False, True):
                 for modern in (False, True):
                     yield {"self": _Obj(_validate_characters=modern), "hed_string": "".join(tup), "allow_placeholders": ap}
+
+
+def in_library_cases(tier):
+    from rt.adapters import _Obj
+    names = ["score", "lang", "sc", "core", "", "score,lang", "e,l", ","]
+    libs = ["score", "score,lang", "lang,score", "", "a,score,b", "testlib", "scoretest", "score,", ",score", "x,,y"]
+    if tier != "quick":
+        alpha = "ab,"
+        extra = ["".join(t) for n in range(0, 5) for t in itertools.product(alpha, repeat=n)]
+        names = names + [e for e in extra if len(e) <= 2]
+        libs = libs + extra
+    for lib in libs:
+        for nm in names:
+            yield {"hed_schema": _Obj(library=lib), "tag_entry": _Obj(name="Some-tag", attributes={"inLibrary": nm}),
+                   "attribute_name": "inLibrary"}
+        yield {"hed_schema": _Obj(library=lib), "tag_entry": _Obj(name="Some-tag", attributes={}), "attribute_name": "inLibrary"}
